@@ -24,6 +24,7 @@ theorem fields : Gen.Config.fields = Model.Config.fields := rfl
 theorem isimipDefaults : Gen.Config.isimipDefaults = Model.Config.isimipDefaults := rfl
 theorem isimipDocDefaults : Gen.Config.isimipDocDefaults = Model.Config.isimipDocDefaults := rfl
 theorem postInit : Gen.Config.postInit = Model.Config.postInit := rfl
+theorem defineOptions : Gen.Config.defineOptions = Model.Config.defineOptions := rfl
 theorem applyRederives : Gen.Config.applyRederives = Model.Config.applyRederives := rfl
 
 theorem has_lower_threshold (a b c d : ExtRat) : Gen.Config.has_lower_threshold a b c d = hasLowerThreshold a b c d := by
